@@ -4,6 +4,7 @@ import importlib
 import pyModeS as pms
 from ref import doc9871 as D
 from ref import frames
+from vlib import variants
 from vlib.core import Leg, call
 
 PROPERTY = "C11"
@@ -74,6 +75,11 @@ def chk_field(case, note):
             r = call(fn, msg)
             if r[0] != "ok":
                 return "%s(%s) raised %r" % (fname, msg, r[1:])
+            if (mb0 ^ case["raw"]) & 3 == 0:  # the same frame held in a str subclass (numpy.str_ from an array of frames, a user class)
+                for tname, m2 in variants.str_variants(msg):
+                    r2 = call(fn, m2)
+                    if not variants.same_outcome(r, r2):
+                        return "%s on a %s holding %s -> %r, on the plain str -> %r" % (fname, tname, msg, r2, r)
             v = r[1]
             if ti is not None:
                 if not isinstance(v, tuple) or len(v) != 2:
@@ -114,6 +120,12 @@ def chk_cap17(case, note):
         r = call(fn, msg)
         if r[0] != "ok" or list(r[1]) != exp:
             return "%s(%s) = %r, capability bits %s mean %r" % (fname, msg, r, format(case["mask"], "024b"), exp)
+        if isinstance(r[1], list):  # the caller owns the returned list: editing it must not change later answers
+            r[1].append("BDSXX")
+            del r[1][:1]
+            r2 = call(fn, msg)
+            if r2[0] != "ok" or list(r2[1]) != exp:
+                return "%s(%s) = %r after the caller edited the list returned by the previous call (expected %r)" % (fname, msg, r2, exp)
     note.evals = 2
     note.nt(case["mask"] != 0)
     return None
